@@ -20,6 +20,7 @@ RULE = (
     "duration multiple or not of the period x numrec {1,2,3} x period, and for each scenario EVERY file boundary as restart point; non-trivial = a restart "
     "after which at least one particle is released AND at least one particle has died before the restart; lattice points distinct by construction"
 )
+RULE += " A third of the points run another experiment (and one restart of it) first, in the same directory under the same file names."
 RULE += " Beyond the lattice (chosen scenarios, not enumerated): a cohort that dies out completely before a late release; the known finding is recognised only by the exact outcome it explains."
 ASSUMPTIONS = [
     "diffusion off (the statement's condition); float64 output so that 'up to output precision' is 1e-9",
@@ -34,7 +35,7 @@ VARS = ("pid", "X", "Y", "Z", "age", "temp", "tag", "dose", "active")
 
 def bounds(tier, seed):
     return dict(schemes=["EF", "RK2", "RK4"], release=["discrete", "continuous", "late", "gap"], deaths=["none", "ibm", "leave", "both"], scalar=[True], numrec=[1, 2, 3], rev=[False, True],
-                nsteps=[12, 13] if tier == "quick" else [8, 12, 13, 17], periods=[2] if tier == "quick" else [1, 2, 3])
+                nsteps=[12, 13] if tier == "quick" else [8, 12, 13, 17], periods=[1, 2] if tier == "quick" else [1, 2, 3])
 
 
 def cases(tier, seed):
@@ -46,7 +47,7 @@ def cases(tier, seed):
         schemes = b["schemes"] if tier == "thorough" else [b["schemes"][k % 3]]
         for sch in schemes:
             for rev in b["rev"]:
-                out.append(dict(scheme=sch, release=rel, death=death, numrec=numrec, nsteps=n, period=P, pvars=bool((k // 2 + k // 7) % 2), packed=bool((k // 3) % 2), other_ref=bool((k // 5) % 2), rev=rev))
+                out.append(dict(scheme=sch, release=rel, death=death, numrec=numrec, nsteps=n, period=P, pvars=bool((k // 2 + k // 7) % 2), packed=bool((k // 3) % 2), other_ref=bool((k // 5) % 2), rev=rev, decoy=bool((k + k // 4) % 3 == 0)))
     return out
 
 
@@ -166,6 +167,17 @@ def run_case(case):
     d = util.scratch("c08")
     n, P, r = case["nsteps"], case["period"], case["numrec"]
     sign = -1 if case.get("rev") else 1
+    if case.get("decoy") and math.ceil(math.ceil(n / P) / r) > 1:
+        # another experiment first, in the same directory under the same file names (other release table, other number of particles),
+        # restarted once in this very process: nothing remembered from its files may leak into the experiment below
+        dec = dict(case, release="discrete" if case["release"] != "discrete" else "continuous", death="none", decoy=False)
+        try:
+            dconf, _ = run_full(dec, d)
+            run_restart(dec, d, dconf, 0, [f"run_{j:03d}.nc" for j in range(math.ceil(math.ceil(n / P) / r))])
+        except drive.RunFailed:
+            pass  # the decoy's own fate is the business of its own lattice point
+        for f in list(d.glob("run_*.nc")) + list(d.glob("re*_*.nc")):
+            f.unlink()
     try:
         conf0, npid_by_step = run_full(case, d)
     except drive.RunFailed as e:
